@@ -29,6 +29,7 @@ import (
 	"sort"
 	"strings"
 	"sync"
+	"sync/atomic"
 	"testing"
 	"time"
 
@@ -1051,6 +1052,8 @@ func c15Renderer() event.SnowflakeEventReceiver {
 	return d
 }
 
+var c15IceCount int64
+
 func c15RunIce(r *vh.Run, c c15IceCase, viaCollect bool) {
 	env := c15EnvOf(c)
 	var servers []webrtc.ICEServer
@@ -1063,8 +1066,16 @@ func c15RunIce(r *vh.Run, c c15IceCase, viaCollect bool) {
 	caseLine := fmt.Sprintf("c15 connect 1 %s  [ice=%q stub=%s viaCollect=%v]", env, c.urls, c.stub, viaCollect)
 	var ch chan string
 	var peers *Peers
+	// every other case goes through the constructors that take no event receiver (NewWebRTCDialer / NewWebRTCPeer),
+	// as embedders of the library and older callers do
+	plain := atomic.AddInt64(&c15IceCount, 1)%2 == 0
+	caseLine += fmt.Sprintf(" [constructor without event receiver=%v]", plain)
 	if viaCollect {
-		peers, _ = NewPeers(NewWebRTCDialerWithEvents(broker, servers, 1, c15Renderer()))
+		dialer := NewWebRTCDialerWithEvents(broker, servers, 1, c15Renderer())
+		if plain {
+			dialer = NewWebRTCDialer(broker, servers, 1)
+		}
+		peers, _ = NewPeers(dialer)
 		ch = c15Async(func() string {
 			pe, err := peers.Collect()
 			if err != nil {
@@ -1076,7 +1087,13 @@ func c15RunIce(r *vh.Run, c c15IceCase, viaCollect bool) {
 	} else {
 		cfg := &webrtc.Configuration{ICEServers: servers}
 		ch = c15Async(func() string {
-			pe, err := NewWebRTCPeerWithEvents(cfg, broker, c15Renderer())
+			var pe *WebRTCPeer
+			var err error
+			if plain {
+				pe, err = NewWebRTCPeer(cfg, broker)
+			} else {
+				pe, err = NewWebRTCPeerWithEvents(cfg, broker, c15Renderer())
+			}
 			if err != nil {
 				if pe != nil {
 					return "err-with-peer"
